@@ -42,6 +42,9 @@ def app_messages(kinds: tuple[str, ...]) -> list[Any]:
             out.append(mk("TextSensorStateResponse", key=20 + i, state="x" * 40))
         elif k == "LOG":
             out.append(mk("SubscribeLogsResponse", level=3, message=b"m" * 200))
+        elif k.startswith("BIG:"):
+            # a large message: the encrypted frame is len + 26 bytes long (the 16-bit frame length allows up to 65535)
+            out.append(mk("SubscribeLogsResponse", level=3, message=bytes((i * 7 + j) % 251 for j in range(int(k[4:])))))
         else:
             raise HarnessError(k)
     return out
